@@ -7,7 +7,6 @@ pub mod worker;
 use proptest::strategy::{BoxedStrategy, Strategy, ValueTree};
 use proptest::test_runner::{Config, RngAlgorithm, TestRng, TestRunner};
 use serde_json::Value;
-use std::cell::RefCell;
 use std::collections::BTreeMap;
 use std::panic::{catch_unwind, AssertUnwindSafe};
 
@@ -130,6 +129,11 @@ pub trait TypedProp: Sync + Send {
     fn gen(&self, tier: Tier, seed: u64, idx: u64) -> Gen<Self::C>;
     fn strategy(&self, tier: Tier, key: u32) -> BoxedStrategy<Self::C>;
     fn judge(&self, case: &Self::C) -> Verdict;
+    /// Optional extra shrinking after the proptest pass (e.g. text-level ddmin).
+    /// `fails(c)` is true when `c` still fails with the same signature.
+    fn shrink_more(&self, case: &Self::C, _fails: &mut dyn FnMut(&Self::C) -> bool) -> Self::C {
+        case.clone()
+    }
     /// Whether a hang (confirmed) is a violation of this property.
     fn hang_is_violation(&self) -> bool {
         false
@@ -171,9 +175,7 @@ pub trait DynProp: Sync + Send {
 
 pub type StratCache = std::collections::HashMap<u32, Box<dyn std::any::Any>>;
 
-thread_local! {
-    static LAST_PANIC: RefCell<Option<(String, String)>> = const { RefCell::new(None) };
-}
+static LAST_PANIC: parking_lot::Mutex<Option<(String, String)>> = parking_lot::Mutex::new(None);
 
 pub fn install_panic_hook(quiet: bool) {
     std::panic::set_hook(Box::new(move |info| {
@@ -191,7 +193,10 @@ pub fn install_panic_hook(quiet: bool) {
         if !quiet {
             eprintln!("panic at {loc}: {msg}");
         }
-        LAST_PANIC.with(|p| *p.borrow_mut() = Some((loc, msg)));
+        let mut g = LAST_PANIC.lock();
+        if g.is_none() {
+            *g = Some((loc, msg));
+        }
     }));
 }
 
@@ -236,19 +241,27 @@ fn norm_loc(l: &str) -> String {
 /// Run `f` catching panics; a panic becomes a failed verdict with a
 /// signature naming the source file and the normalised message.
 pub fn guarded<F: FnOnce() -> Verdict>(f: F) -> Verdict {
-    LAST_PANIC.with(|p| *p.borrow_mut() = None);
+    *LAST_PANIC.lock() = None;
     match catch_unwind(AssertUnwindSafe(f)) {
         Ok(v) => v,
         Err(_) => {
-            let (loc, msg) = LAST_PANIC
-                .with(|p| p.borrow_mut().take())
-                .unwrap_or_else(|| ("<unknown>".into(), "<unknown>".into()));
+            let (loc, msg) = LAST_PANIC.lock().take().unwrap_or_else(|| ("<unknown>".into(), "<unknown>".into()));
             Verdict::failed(
                 format!("panic:{}:{}", norm_loc(&loc), norm_msg(&msg)),
                 format!("panic at {loc}: {msg}"),
             )
             .class("panic")
         }
+    }
+}
+
+/// Run `f` on a fresh thread with an 8 MiB stack (the size of the main thread
+/// that parses at start-up); a panic on that thread propagates to `guarded`.
+pub fn on_big_stack<T: Send + 'static, F: FnOnce() -> T + Send + 'static>(f: F) -> T {
+    let h = std::thread::Builder::new().stack_size(8 << 20).spawn(f).expect("spawn");
+    match h.join() {
+        Ok(v) => v,
+        Err(e) => std::panic::resume_unwind(e),
     }
 }
 
@@ -285,6 +298,34 @@ pub fn runner_for(id: &str, seed: u64, idx: u64) -> TestRunner {
 pub struct Wrap<P: TypedProp>(pub P);
 
 impl<P: TypedProp + 'static> Wrap<P> {
+    fn more(&self, c: &P::C, f: &Fail) -> (P::C, Fail) {
+        let mut last_fail = f.clone();
+        let sig = f.sig.clone();
+        let mut budget = 400;
+        let out = {
+            let mut fails = |cand: &P::C| -> bool {
+                if budget == 0 {
+                    return false;
+                }
+                budget -= 1;
+                let v = guarded(|| self.0.judge(cand));
+                match v.fail {
+                    Some(ff) if ff.sig == sig => {
+                        last_fail = ff;
+                        true
+                    }
+                    _ => false,
+                }
+            };
+            self.0.shrink_more(c, &mut fails)
+        };
+        // re-judge the result so that the detail matches the returned case
+        let v = guarded(|| self.0.judge(&out));
+        match v.fail {
+            Some(ff) if ff.sig == sig => (out, ff),
+            _ => (c.clone(), f.clone()),
+        }
+    }
     fn strat<'a>(&self, tier: Tier, key: u32, cache: &'a mut StratCache) -> &'a BoxedStrategy<P::C> {
         let k = key * 2 + (tier == Tier::Thorough) as u32;
         cache
@@ -325,7 +366,13 @@ impl<P: TypedProp + 'static> DynProp for Wrap<P> {
             Gen::Fixed(c) => {
                 let v = guarded(|| self.0.judge(&c));
                 let hash = if v.nontrivial { c.canon_hash() } else { 0 };
-                let shrunk = v.fail.clone().map(|f| (c.to_json(), f));
+                let shrunk = v.fail.clone().map(|f| {
+                    if known(&f.sig) {
+                        return (c.to_json(), f);
+                    }
+                    let (c2, f2) = self.more(&c, &f);
+                    (c2.to_json(), f2)
+                });
                 let case_json = if want_json || v.fail.is_some() {
                     Some(c.to_json())
                 } else {
@@ -372,7 +419,8 @@ impl<P: TypedProp + 'static> DynProp for Wrap<P> {
                                 }
                             }
                         }
-                        shrunk = Some((best.0.to_json(), best.1));
+                        let (c2, f2) = self.more(&best.0, &best.1);
+                        shrunk = Some((c2.to_json(), f2));
                     }
                 }
                 let case_json = if want_json || v.fail.is_some() {
